@@ -55,9 +55,11 @@ def replay(rp):
         sim = clientsim.Sim(kind, cb_mode="ok")
         sim.force_limit = d["limit"]
         lines = [bytes.fromhex(x) for x in d["packets"]]
-        sim = clientcorr.c12_session(kind, lines, [bytes.fromhex(x) for x in d["reads"]], "ok", sim=sim)
+        sim = clientcorr.c12_session(kind, lines, [bytes.fromhex(x) for x in d["reads"]], "ok", eof=bool(d.get("eof")), sim=sim)
         got = list(getattr(sim, "decoder_inputs", []))
         exp = [l.decode("utf-8", errors="replace").strip() for l in lines if len(l) - 1 <= d["limit"]]
+        if d.get("eof") and "status DISCONNECTED" not in sim.events:
+            return False, f"line limit {d['limit']}: the stream ended and the client did not report DISCONNECTED"
         return got == exp, f"line limit {d['limit']}: the decoder was handed {len(got)} lines, the stream has {len(exp)} lines of at most that length"
     if rp.get("kind") != "client-session" or not rp.get("scenario"):
         return False, "not an input replay: " + str(rp.get("what") or rp.get("broken_theorems") or rp.get("broken_correspondence"))[:500]
